@@ -607,6 +607,7 @@ var rulePragmaValue = &core.Rule{ID: "R12.7", Min: 1,
 				}
 				okAll, bad := true, false
 				nTrim, nRaw := 0, 0
+				eats := ""
 				for _, v := range srcs {
 					switch {
 					case isWSTrim(v):
@@ -615,7 +616,14 @@ var rulePragmaValue = &core.Rule{ID: "R12.7", Min: 1,
 						nRaw++
 					default:
 						okAll = false
+						if m := trimEatsLabel(v); m != "" {
+							eats = m
+						}
 					}
+				}
+				if eats != "" {
+					s.Bad(key, c.Pos(st.at.Pos()), eats)
+					continue
 				}
 				// trimmed on some paths and not on others (a mode flag shared with another flavour of the scanner): undecided
 				if nRaw > 0 && nTrim == 0 {
@@ -1277,6 +1285,12 @@ func isWSTrimValue(c *core.Ctx, v ssa.Value) bool {
 		}
 		for _, w := range " \t\n\f\r" {
 			if !strings.ContainsRune(k, w) {
+				return false
+			}
+		}
+		// and nothing else: a cutset with a further character eats the beginning of a label
+		for _, w := range k {
+			if !strings.ContainsRune(" \t\n\f\r", w) {
 				return false
 			}
 		}
